@@ -1,15 +1,157 @@
-import DryocVerif.Bytes
-namespace DryocVerif.Properties.C19
-open DryocVerif
+import DryocVerif.Model.Protected
+import DryocVerif.Proofs.ProtectedErr
+/-
+C19 — refusal of memory locking.  The lock oracle is arbitrary (`State.m.oracle : Nat → Bool`
+answers the i-th request that reaches `mlock(2)`; `failfrom:K` installs a new one).
 
-/-- page rounding used by the allocator: `size + (P - size % P)` is a multiple of `P` strictly above `size` -/
-theorem pageRound_spec (size P : Nat) (hP : 0 < P) :
-    (size + (P - size % P)) % P = 0 ∧ size < size + (P - size % P) ∧ size + (P - size % P) ≤ size + P := by
-  have h := Nat.mod_lt size hP
-  refine ⟨?_, by omega, by omega⟩
-  have e : size + (P - size % P) = P * (size / P) + P := by
-    have := Nat.div_add_mod size P
-    omega
-  rw [e, Nat.mul_add_mod_self_left, Nat.mod_self]
+* Every token whose Rust entry point returns `Result` (lock, unlock, ro, rw, na, fsl, fsro,
+  newlocked, genlocked, newrolocked, genrolocked) never answers `panic`.
+* A refused `lock` answers `err`; the slots of all OTHER regions and every page of their
+  allocations are untouched (`err_preserves_others` — this one holds for every `err`, whatever
+  its cause and whatever the token); the consumed region is gone, its allocation was wiped
+  before release, and every page of it is back to `rw`, unlocked (`err_cleans_up`).
+* OUT OF SCOPE (stated, not hidden): the non-`Result` operations `Clone for Locked/LockedRO` and
+  `ResizableBytes::resize for Locked` re-lock with `expect` and DO panic when the request is
+  refused (`clone_may_panic`, `resize_may_panic`); the invariant C14 survives those panics
+  (`C14.inv_step` has no hypothesis on the outcome) and nothing leaks (`panic_leaves_no_trace`).
+-/
+namespace DryocVerif.Properties.C19
+open DryocVerif DryocVerif.Model.Protected DryocVerif.Proofs.Protected
+
+/-- `Result`-returning tokens never panic, for every state and oracle -/
+theorem result_ops_never_panic (c : Cfg) (s : State) (t : Tok) (h : isResultOp t.op = true) :
+    (step c s t).1 ≠ .panic :=
+  result_never_panics c (resetRel s) t h
+
+/-- a refused lock request on a live, non-empty, unlocked region (Plain, UR, URO, UNA) yields `err` -/
+theorem refused_lock_err (c : Cfg) (s : State) (i : Nat) (sl : Slot)
+    (hi : s.slots[i]? = some sl) (hg : sl.gone = false) (hu : isUnlockedSt sl.o.st = true)
+    (hl : 0 < sl.o.v.len) (hr : s.m.oracle (s.m.cnt + 1) = false) :
+    step c s ⟨.lock, i⟩ =
+      (.err, setSlot (resetRel s)
+        (protDrop c { (resetRel s).m with cnt := s.m.cnt + 1 } sl.o.v .unlocked (pmOf sl.o.st))
+        i { sl with gone := true }) := by
+  show opLock c (resetRel s) i = _
+  rw [opLock_eq (s := resetRel s) hi hg hu]
+  unfold doLock
+  rw [lockV_refused (m := (resetRel s).m) _ (by omega) hr]
+  simp [resetRel]
+
+/-- Every `err` (refusal, kernel failure, length mismatch …) leaves every other slot as it was,
+and every page of every other live region — data, spare capacity and both guard pages — keeps its
+permission and its lock flag. -/
+theorem err_preserves_others (c : Cfg) (hP : 0 < c.P) (s : State) (h : Inv c s) (t : Tok)
+    (he : (step c s t).1 = .err) (j : Nat) (sl : Slot) (hj : j ≠ t.idx) (hs : s.slots[j]? = some sl) :
+    (step c s t).2.slots[j]? = some sl ∧
+    (sl.gone = false → ∀ p, inBlock c.P sl.o.v p →
+      (step c s t).2.m.k.perm p = s.m.k.perm p ∧ (step c s t).2.m.k.locked p = s.m.k.locked p) := by
+  have hslot : (step c s t).2.slots[j]? = some sl := by
+    rcases err_shape c (resetRel s) t he with h1 | ⟨_, sl', _, _, h1⟩
+    · show (stepCore c (resetRel s) t).2.slots[j]? = _
+      rw [h1]; exact hs
+    · show (stepCore c (resetRel s) t).2.slots[j]? = _
+      rw [h1, List.getElem?_set_ne (by omega)]; exact hs
+  refine ⟨hslot, fun hg p hp => ?_⟩
+  exact others_untouched h (inv_step hP h t) hs hslot hg hp
+
+/-- an `err` of any token other than `lock` leaves ALL slots as they were -/
+theorem err_create_preserves_all (c : Cfg) (s : State) (t : Tok) (hop : t.op ≠ .lock)
+    (he : (step c s t).1 = .err) : (step c s t).2.slots = s.slots := by
+  rcases err_shape c (resetRel s) t he with h1 | ⟨h1, _⟩
+  · exact h1
+  · exact absurd h1 hop
+
+/-- After a refused `lock` the consumed region is gone, its allocation has been released exactly
+once and wiped (`nonzero = 0`), and every page of it (guards included) is `rw` and unlocked. -/
+theorem err_cleans_up (c : Cfg) (hP : 0 < c.P) (hw : c.wipe = true) (s : State) (h : Inv c s)
+    (i : Nat) (sl : Slot) (hi : s.slots[i]? = some sl) (hg : sl.gone = false)
+    (hu : isUnlockedSt sl.o.st = true) (hl : 0 < sl.o.v.len) (hr : s.m.oracle (s.m.cnt + 1) = false) :
+    (step c s ⟨.lock, i⟩).1 = .err ∧
+    (step c s ⟨.lock, i⟩).2.slots[i]? = some { sl with gone := true } ∧
+    (step c s ⟨.lock, i⟩).2.m.rel = (if sl.o.v.cap = 0 then [] else [(sl.o.v.cap, 0)]) ∧
+    (∀ p, inBlock c.P sl.o.v p →
+      (step c s ⟨.lock, i⟩).2.m.k.perm p = .rw ∧ (step c s ⟨.lock, i⟩).2.m.k.locked p = false) := by
+  have hinv := inv_step hP h ⟨.lock, i⟩
+  have heq := refused_lock_err c s i sl hi hg hu hl hr
+  have hlt : i < s.slots.length := by
+    rcases Nat.lt_or_ge i s.slots.length with h1 | h1
+    · exact h1
+    · rw [List.getElem?_eq_none h1] at hi; simp at hi
+  rw [heq] at hinv ⊢
+  refine ⟨rfl, ?_, ?_, fun p hp => ⟨?_, ?_⟩⟩
+  · simp [setSlot, resetRel, hlt]
+  · simp only [setSlot]
+    rw [protDrop_unlocked_rel c hw]; simp [resetRel]
+  · apply C14_unowned hinv
+    intro j sl' hj hg' hb
+    simp only [setSlot, resetRel] at hj
+    by_cases hji : j = i
+    · subst hji
+      rw [List.getElem?_set_self hlt] at hj
+      simp at hj; rw [← hj] at hg'; simp at hg'
+    · rw [List.getElem?_set_ne (by omega)] at hj
+      exact Proofs.Protected.inv_disjoint h hi hj (by omega) hg hg' p ⟨hp, hb⟩
+  · simp only [setSlot]
+    rw [protDrop_unlocked_locked]
+    have hb := inv_block h hi hg
+    refine hb.all_unlocked ?_ hp
+    simp only [blkOf]
+    cases hst : sl.o.st with
+    | plain => rfl
+    | prot lm pm => cases lm <;> simp [hst, isUnlockedSt, stLocked] at hu ⊢
+where
+  C14_unowned {c : Cfg} {s : State} (h : Inv c s) {p : Nat}
+      (hp : ∀ (i : Nat) (sl : Slot), s.slots[i]? = some sl → sl.gone = false → ¬ inBlock c.P sl.o.v p) :
+      s.m.k.perm p = .rw := by
+    apply h.outside p
+    intro b hb
+    obtain ⟨sl, hsl, rfl⟩ := List.mem_map.mp hb
+    have hm := List.mem_filter.mp hsl
+    obtain ⟨i, hi⟩ := List.getElem?_of_mem hm.1
+    exact hp i sl hi (by simpa using hm.2)
+
+/-! ### out of scope: non-`Result` operations panic on refusal -/
+
+def cBytes16 : Cfg := { P := 4096, isArr := false, n := 16, wipe := true }
+
+/-- `new; lock; failfrom:1; clone`: cloning a `Locked` region must lock the copy; the refusal
+surfaces as a panic (`expect("unable to lock on resize")`), not as an error value. -/
+theorem clone_may_panic :
+    (run cBytes16 (State.init fun _ => true)
+      [⟨.new, 0⟩, ⟨.lock, 0⟩, ⟨.failfrom 1, 0⟩, ⟨.clone, 0⟩]).map (·.1) = [.ok, .ok, .ok, .panic] := by
+  decide
+
+/-- the same for `resize` of a `Locked` region -/
+theorem resize_may_panic :
+    (run cBytes16 (State.init fun _ => true)
+      [⟨.new, 0⟩, ⟨.lock, 0⟩, ⟨.failfrom 1, 0⟩, ⟨.resize 32, 0⟩]).map (·.1) = [.ok, .ok, .ok, .panic] := by
+  decide
+
+/-- … but even then the half-built copy is wiped and released and the source stays locked:
+one clean release, exactly the source's page locked, slot 0 still `LR`. -/
+theorem panic_leaves_no_trace :
+    let s := runState cBytes16 (State.init fun _ => true)
+      [⟨.new, 0⟩, ⟨.lock, 0⟩, ⟨.failfrom 1, 0⟩, ⟨.clone, 0⟩]
+    s.m.rel = [(16, 0)] ∧ lockedPages s.m.k = 1 ∧ s.slots.map (fun sl => (sl.gone, sl.o.st)) =
+      [(false, .prot .locked .rw)] := by
+  decide
+
+/-! ### non-vacuity -/
+
+/-- `refused_lock_err` / `err_cleans_up` have instances: `new; failfrom:1; lock` -/
+example :
+    let s := runState cBytes16 (State.init fun _ => true) [⟨.new, 0⟩, ⟨.failfrom 1, 0⟩]
+    (∃ sl, s.slots[0]? = some sl ∧ sl.gone = false ∧ isUnlockedSt sl.o.st = true ∧ 0 < sl.o.v.len) ∧
+    s.m.oracle (s.m.cnt + 1) = false ∧
+    (step cBytes16 s ⟨.lock, 0⟩).1 = .err ∧ (step cBytes16 s ⟨.lock, 0⟩).2.m.rel = [(16, 0)] ∧
+    lockedPages (step cBytes16 s ⟨.lock, 0⟩).2.m.k = 0 := by
+  refine ⟨⟨_, rfl, ?_⟩, ?_⟩ <;> decide
+
+/-- with an arbitrary oracle: the second request refused, the first granted -/
+example :
+    (run cBytes16 (State.init fun i => i != 2)
+      [⟨.new, 0⟩, ⟨.clone, 0⟩, ⟨.lock, 0⟩, ⟨.lock, 1⟩, ⟨.newlocked, 0⟩, ⟨.fsl 5, 0⟩]).map (·.1) =
+      [.ok, .ok, .ok, .err, .ok, .ok] := by
+  decide
 
 end DryocVerif.Properties.C19
